@@ -9,7 +9,8 @@
 // cleaned parent is the requested output directory (or a staging directory pdfcpu made there);
 // (ii) the before/after tree differs only by regular files directly inside out/; (iii) attachments:
 // files <-> attachments is a bijection by content, or the documented collision error with out/
-// untouched and no content write; (iv) sanitize.Path driven directly on 10^6 strings.
+// untouched and no content write - also for documents whose name-tree keys (attachment IDs) repeat (dupkeys.go);
+// (iv) sanitize.Path driven directly on 10^6 strings.
 package main
 
 import (
@@ -25,6 +26,7 @@ import (
 var sites = []siteDef{
 	{name: "attachments", quick: 420, thorough: 2500, enumerate: true, perCase: 24, run: siteAttachments(false)},
 	{name: "attachments-portfolio", quick: 60, thorough: 400, run: siteAttachments(true)},
+	{name: "attachments-dupkeys", quick: 324, thorough: 1944, run: siteDupKeys}, // 6 layouts x 9 key spellings x 3 name relations = 162 classes, each 2 / 12 times
 	{name: "split-bookmarks", quick: 160, thorough: 1000, enumerate: true, perCase: 16, run: siteBookmarks},
 	{name: "extract-images", quick: 120, thorough: 600, enumerate: true, perCase: 16, run: siteImages},
 	{name: "extract-fonts", quick: 120, thorough: 600, enumerate: true, perCase: 16, run: siteFonts},
@@ -99,7 +101,7 @@ func main() {
 		api.DisableConfigDir()
 		t0 := time.Now() // debug output only
 		if !t.IsShard() {
-			t.Rule("end-to-end case = (site, case index): a document / form data / font carrying 1..12 hostile names (all names of <= 3 segments over the 20-segment x 3-separator alphabet in thorough, a seeded subset in quick, plus targeted escapes, collision sets and random byte strings) is processed by the real API into sandbox/work/out (named in 6 ways: absolute, trailing slash, relative, ./relative, unclean, through a symlink) under the os interposer; distinct by (site, case, outcome class). Sanitiser: 10^6 strings, non-trivial = contains a separator, '..', control byte, NUL, invalid UTF-8 or reserved stem")
+			t.Rule("end-to-end case = (site, case index): a document / form data / font carrying 1..12 hostile names (all names of <= 3 segments over the 20-segment x 3-separator alphabet in thorough, a seeded subset in quick, plus targeted escapes, collision sets and random byte strings) is processed by the real API into sandbox/work/out (named in 6 ways: absolute, trailing slash, relative, ./relative, unclean, through a symlink) under the os interposer; distinct by (site, case, outcome class). Site attachments-dupkeys: EmbeddedFiles name trees with a REPEATED key (= pdfcpu's attachment ID): 6 layouts (same /Names array in the root or the only kid, neighbouring leaves, different subtrees, same array with a key in between, three times) x 9 key spellings (literal/hex/case/octal/white space/UTF-16, PDFDocEncoding vs UTF-16 vs UTF-8 with BOM, two distinct keys as control) x names {identical, differing only in what the sanitiser removes, distinct} x /F,/UF slots x {no selection, selection by names / key / both / one / the same item twice} x plain or portfolio. Sanitiser: 10^6 strings, non-trivial = contains a separator, '..', control byte, NUL, invalid UTF-8 or reserved stem")
 			t.Assume("oracle (i) is lexical on the cleaned absolute call argument; escapes through symbolic links planted by the workload are covered by the tree difference only")
 			t.Assume("staging directories pdfcpu creates inside the output directory (.pdfcpu-*, .input-*) may be parents of created files as long as they are gone afterwards")
 			t.Assume("two non-attachment outputs with the same sanitised name overwrite each other: counted (fewer_files_than_names), not judged — the property's no-clobber clause names attachments only")
@@ -128,6 +130,13 @@ func main() {
 				}
 				if t.Counter("site/"+s.name+"/files_written") == 0 {
 					t.Broken("site %s wrote no file in any case: the workload does not reach the code under test", s.name)
+				}
+			}
+			if os.Getenv("VERIF_C05_ONLY") == "" && t.Violations() == 0 {
+				for _, k := range []string{"same_key_same_output/collision-error", "names=distinct/ok", "sel=names/collision-error", "sel=all/collision-error"} {
+					if t.Counter("site/attachments-dupkeys/"+k) == 0 {
+						t.Broken("attachments-dupkeys: no case of class %s: the repeated-key workload does not reach the collision protocol", k)
+					}
 				}
 			}
 			if t.Counter("collision_errors_observed") == 0 && os.Getenv("VERIF_C05_ONLY") == "" && t.Violations() == 0 {
